@@ -759,21 +759,23 @@ impl<Writer: Write> Mp4Writer<Writer> {
 
         // Write interleaved samples and collect chunk offsets
         let schedule = self.compute_interleave_schedule();
-        let mut video_chunk_offsets = Vec::with_capacity(self.video_samples.len());
-        let mut audio_chunk_offsets = Vec::with_capacity(self.audio_samples.len());
+        // One chunk per sample; offsets are indexed by sample number (decode order), which
+        // differs from the interleave (presentation) order for reordered video.
+        let mut video_chunk_offsets = vec![0u32; self.video_samples.len()];
+        let mut audio_chunk_offsets = vec![0u32; self.audio_samples.len()];
         let mut cursor = ftyp_len + 8; // After ftyp + mdat header
 
         for (_, kind, idx) in schedule {
             match kind {
                 TrackKind::Video => {
-                    video_chunk_offsets.push(cursor);
+                    video_chunk_offsets[idx] = cursor;
                     let sample = &self.video_samples[idx];
                     let sample_len = sample.data.len() as u32;
                     Self::write_counted(&mut self.writer, &mut self.bytes_written, &sample.data)?;
                     cursor += sample_len;
                 }
                 TrackKind::Audio => {
-                    audio_chunk_offsets.push(cursor);
+                    audio_chunk_offsets[idx] = cursor;
                     let sample = &self.audio_samples[idx];
                     let sample_len = sample.data.len() as u32;
                     Self::write_counted(&mut self.writer, &mut self.bytes_written, &sample.data)?;
@@ -852,17 +854,17 @@ impl<Writer: Write> Mp4Writer<Writer> {
             let schedule = self.compute_interleave_schedule();
 
             // Placeholder offsets - will be recalculated after we know moov size
-            let mut video_offsets = Vec::with_capacity(self.video_samples.len());
-            let mut audio_offsets = Vec::with_capacity(self.audio_samples.len());
+            let mut video_offsets = vec![0u32; self.video_samples.len()];
+            let mut audio_offsets = vec![0u32; self.audio_samples.len()];
             let mut cursor = 0u32;
-            for (_, kind, _) in &schedule {
+            for (_, kind, idx) in &schedule {
                 match kind {
                     TrackKind::Video => {
-                        video_offsets.push(cursor);
+                        video_offsets[*idx] = cursor;
                         cursor += 1; // placeholder
                     }
                     TrackKind::Audio => {
-                        audio_offsets.push(cursor);
+                        audio_offsets[*idx] = cursor;
                         cursor += 1; // placeholder
                     }
                 }
@@ -929,8 +931,8 @@ impl<Writer: Write> Mp4Writer<Writer> {
         let (final_video_tables, final_audio_tables) = if audio_present {
             let schedule = self.compute_interleave_schedule();
 
-            let mut video_offsets: Vec<u32> = Vec::with_capacity(self.video_samples.len());
-            let mut audio_offsets: Vec<u32> = Vec::with_capacity(self.audio_samples.len());
+            let mut video_offsets: Vec<u32> = vec![0u32; self.video_samples.len()];
+            let mut audio_offsets: Vec<u32> = vec![0u32; self.audio_samples.len()];
             let mut cursor = mdat_data_start;
 
             for (_, kind, idx) in &schedule {
@@ -942,7 +944,7 @@ impl<Writer: Write> Mp4Writer<Writer> {
                                 "MP4 chunk offset exceeds u32::MAX",
                             ));
                         }
-                        video_offsets.push(cursor as u32);
+                        video_offsets[*idx] = cursor as u32;
                         cursor += self.video_samples[*idx].data.len() as u64;
                     }
                     TrackKind::Audio => {
@@ -952,7 +954,7 @@ impl<Writer: Write> Mp4Writer<Writer> {
                                 "MP4 chunk offset exceeds u32::MAX",
                             ));
                         }
-                        audio_offsets.push(cursor as u32);
+                        audio_offsets[*idx] = cursor as u32;
                         cursor += self.audio_samples[*idx].data.len() as u64;
                     }
                 }
